@@ -157,9 +157,9 @@ PROPS = {
     },
     "C11": {
         "level": "proof", "cone": ["model/Ast.v", "model/Parser.v", "model/Eval.v", "model/Cases.v", "proofs/EvalProofs.v", "props/C11.v"],
-        "trusted_base": COMMON_TB + ["eval_chain, eval_index, index_callee (with callee_key: the substring search on printed paths) and the method lookup of eval_call in model/Eval.v, and assign_callee / split_callee in model/Parser.v, transcribe evalIdentifier, evalAccessIndex, evalIndexCallee, evalCallExpression and the parser's callee rewiring; reflect field/method lookup is modelled on the shared struct family"],
+        "trusted_base": COMMON_TB + ["eval_chain, eval_index, index_callee (with callee_key: the placeholder name at the root of the callee) and the method lookup of eval_call in model/Eval.v, and assign_callee / split_callee in model/Parser.v, transcribe evalIdentifier, evalAccessIndex, evalIndexCallee, evalCallExpression and the parser's callee rewiring; reflect field/method lookup is modelled on the shared struct family"],
         "assumptions": [],
-        "explanation": "theorems about the rebinding key on the model (with refuted witnesses for the known findings) + all short paths over a self-describing graph compared with Go navigation",
+        "explanation": "theorems about the rebinding key on the model (the former finding c11-method-after-index as a computed example of the repaired behaviour) + all short paths over a self-describing graph compared with Go navigation",
     },
     "C18": {
         "level": "proof", "cone": ["model/Lexer.v", "model/Parser.v", "proofs/LexerProofs.v", "proofs/LexerEquiv.v", "props/C18.v"],
